@@ -67,7 +67,7 @@ def refargs_of(rec, exprs: dict) -> list:
             if "e" in x and x["e"] == "pool":
                 walk(exprs[x["x"]])
                 return
-            if any(k in x for k in ("r", "c", "o", "ro")) and "e" not in x and "p" not in x and "a" not in x:
+            if any(k in x for k in ("r", "c", "o", "ro")) and not any(k in x for k in ("e", "p", "a", "op")):
                 out.append(x)
                 return
             for v in x.values():
